@@ -456,6 +456,8 @@ def rename_models(run):
 @check("C05")
 def c05(run):
     run.assumptions += ["for every accepted packet the driver asks for every offset 12..min(len,712) and len to be carried across; the specification looks at those that are record boundaries of Decode(input) (non-boundary offsets are outside the statement)"]
+    run.model("MC_Uncompress", "MC_Uncompress.cfg")
+    run.negative_control("MC_Uncompress", "MC_Uncompress_neg.cfg")
     n = (2500, 2000, 3000) if quick(run) else (60000, 30000, 50000)
     pk = accepted_inputs(run, *n)
     scen = vlib.with_do(pk, "uncompress", '"all_offsets":true,')
@@ -503,6 +505,19 @@ def c07(run):
     for i, l in enumerate(pk):
         for j in range(per):
             scen.append('{"do":"rename_menu","n":1,"seed":%d,%s' % (sd * 1000003 + i * per + j, l[1:]))
+    # label-boundary near misses: a label of the packet *contains the wire encoding* of the source's first label
+    # (its length byte is a printable character for lengths 32..61), followed by the rest of the source
+    H = histgen
+    for L in (32, 33, 47, 48, 57, 61):
+        src = [L] + [97] * L + H.name("com")
+        inner = [120, L] + [97] * L                     # "x", chr(L), "a" * L : one label of L + 2 bytes
+        near = [len(inner)] + inner + H.name("com")
+        aligned = H.name("www") [:-1] + src
+        q = near + [0, 1, 0, 1]
+        pkt = H.hdr(30, 0x8180, 1, 3, 1, 0) + q + H.rr(near, 5, 1, near) + H.rr(aligned, 1, 2, [1, 2, 3, 4]) + H.rr(H.ptr(12), 15, 3, [0, 5] + near) + H.rr(aligned, 2, 4, near)
+        for tgt in (H.name("net"), H.name("b" * 20, "org")):
+            for sfx in (True, False):
+                scen.append(json.dumps({"do": "rename", "pkt": pkt, "target": tgt, "source": src, "suffix": sfx}, separators=(",", ":")))
     scen, obs, bad, facts = transform_run(run, scen, "ren", "C07", "VIOLATION-C07")
     run.cov["distinct_nontrivial"] = facts.get("some-match", 0) + facts.get("all-match", 0) + facts.get("overflow", 0)
     run.cov["rule"] = "rename calls on accepted packets with well-formed non-root names; non-trivial = at least one name of the packet matches the source (or the call must fail because a rewritten name overflows)"
